@@ -682,9 +682,44 @@ def _connected(cellset):
     return len(seen) == len(cellset)
 
 
+_PARTITIONS = {}
+
+
 def region_partitions(h, w, connected=True, min_size=1, max_size=None):
     """every partition of the h x w cells into (connected) regions; each region a list of
-    (y, x) in row-major order, regions ordered by their least cell"""
+    (y, x) in row-major order, regions ordered by their least cell (the enumeration is cached per argument tuple;
+    callers get fresh lists)"""
+    key = (h, w, connected, min_size, max_size)
+    if key not in _PARTITIONS:
+        # also kept on disk (work/, git-ignored): the larger enumerations take tens of seconds and are needed by the
+        # Tier-2, tie and search phases of every run; the file is a pure function of the key
+        import pickle
+        d = os.path.join(vlib.ROOT, "work", "partitions")
+        f = os.path.join(d, "p_%s.pickle" % "_".join(str(k) for k in key))
+        val = None
+        if os.path.exists(f):
+            try:
+                with open(f, "rb") as fh:
+                    val = pickle.load(fh)
+            except Exception:  # noqa
+                val = None
+        if val is None:
+            val = [tuple(tuple(b) for b in part) for part in _region_partitions(h, w, connected, min_size, max_size)]
+            if len(val) > 2000:
+                try:
+                    os.makedirs(d, exist_ok=True)
+                    tmp = f + ".%d.tmp" % os.getpid()
+                    with open(tmp, "wb") as fh:
+                        pickle.dump(val, fh)
+                    os.replace(tmp, f)
+                except Exception:  # noqa
+                    pass
+        _PARTITIONS[key] = val
+    for part in _PARTITIONS[key]:
+        yield [list(b) for b in part]
+
+
+def _region_partitions(h, w, connected=True, min_size=1, max_size=None):
     cs = [(y, x) for y in range(h) for x in range(w)]
 
     def go(i, blocks):
